@@ -47,12 +47,14 @@ def main():
                                    stderr=subprocess.STDOUT)
             if p.returncode != 0:
                 print(f'{prop} {commit} SKIP (fix no longer reverse-applies cleanly: {p.stdout.decode()[-120:].strip()})')
+                bad += 1        # write selftest/revert-<commit>.diff by hand: an unexercised fix is not a passed self-test
                 continue
             env = dict(os.environ, VERIF_REPO=wt)
             rc, o = sh([os.path.join(core.VERIF_DIR, 'check'), prop, '--tier', a.tier, '--no-evidence'], cwd=core.VERIF_DIR, env=env)
             keys = [l.strip()[4:60] for l in o.splitlines() if l.strip().startswith('key=')]
-            status = 'DETECTED' if rc == 1 else f'MISSED(exit {rc})'
-            if rc != 1:
+            found = rc == 1 and f'VIOLATION property={prop}' in o
+            status = 'DETECTED' if found else f'MISSED(exit {rc})'
+            if not found:
                 bad += 1
             print(f'{prop} {commit} {status} {keys[:3]} :: {what}')
         finally:
